@@ -13,13 +13,18 @@ Ev == Trace[l]
 IsEvent(e) == l <= Len(Trace) /\ Trace[l].ev = e /\ l' = l + 1
 ToSet(s) == {s[i] : i \in 1..Len(s)}
 
-TInit == l = 1 /\ store = {} /\ cfg = [wt |-> FALSE, np |-> FALSE, ids |-> FALSE]
+TInit == l = 1 /\ store = {} /\ cfg = [wt |-> FALSE, np |-> FALSE, ids |-> FALSE, inner |-> "plain"]
 
 \* Reset also logs the harness' block universe (measured on the real multihashes): it must be
 \* the universe of this specification -- same length classes, hash functions and multihash framing.
 TReset   == /\ IsEvent("Reset")
             /\ ToSet(Ev.mhs) = MhTable /\ Len(Ev.mhs) = Cardinality(MhTable)
-            /\ store' = {} /\ cfg' = [wt |-> Ev.wt, np |-> Ev.np, ids |-> Ev.ids]
+            \* the wrapped store is of a kind the spec knows; a harness wrapper exposes exactly the
+            \* optional capabilities the spec lists for its kind (measured by type assertion)
+            /\ Ev.inner \in Inners
+            /\ InnerBase(Ev.inner) = "wrap" => ToSet(Ev.caps) = InnerCaps(Ev.inner)
+            /\ store' = {} /\ cfg' = [wt |-> Ev.wt, np |-> Ev.np, ids |-> Ev.ids, inner |-> Ev.inner]
+            /\ cfg' \in Cfgs
 TPut     == IsEvent("Put") /\ Ev.err = "" /\ Put(Ev.c)
 TPutMany == IsEvent("PutMany") /\ Ev.err = "" /\ PutMany(Ev.cs)
 TDelete  == IsEvent("Delete") /\ Ev.err = "" /\ Delete(Ev.c)
